@@ -89,6 +89,29 @@ def c09(res, tier, seed, replay):
             if "C09-a" in kn and all(x in crashing for x in SIG_C09A):
                 res.known["C09-a"] = kn["C09-a"]["what"]
                 res.add("known_crash_runs", 1)
+                # what was logged before the process died is judged all the same (complete lines only)
+                part = out + ".partial"
+                nl = 0
+                if os.path.exists(out):
+                    with open(out) as f, open(part, "w") as g:
+                        for line in f:
+                            try:
+                                json.loads(line)
+                            except ValueError:
+                                break
+                            if not line.endswith("\n"):
+                                break
+                            g.write(line)
+                            nl += 1
+                if nl:
+                    tv = vlib.tlc_trace("ShardTrace", part, known=kn.keys(), name=name + "-partial")
+                    res.add("trace_events", tv["lines"])
+                    if not tv["accepted"]:
+                        n = tv["matched"] + 1
+                        line = vlib.read_line(part, n) or ""
+                        res.violation(f"forced schedules {name} (the part logged before the known crash): no spec action explains line "
+                                      f"{n}/{tv['lines']}: {summarize_event(line)}",
+                                      files=[part, bf], meta={"cmd": "shard", "args": args, "line": n, "module": "ShardTrace"})
                 continue
             errf = out + ".stderr"
             open(errf, "w").write(se)
@@ -112,12 +135,29 @@ def c09(res, tier, seed, replay):
         # (the writer has to wait for it)
         {"hist": [["WBegin", ""], ["WAttach", ""], ["WCommit", ""], ["RBegin", "r1"], ["RAttachShared", "r1"], ["RGetShared", "r1"],
                   ["WBegin", ""], ["WAttach", ""], ["RGetShared", "r1"], ["RGetShared", "r1"], ["REnd", "r1"], ["WCommit", ""]]},
+        # the same with the reader on an object it created itself, and with batches that fail
+        {"hist": [["RBegin", "r1"], ["RAttachNew", "r1"], ["RGetShared", "r1"], ["WBegin", ""], ["WAttach", ""], ["RGetShared", "r1"],
+                  ["REnd", "r1"], ["WFail", ""]]},
+        {"hist": [["WBegin", ""], ["WAttach", ""], ["WCommit", ""], ["RBegin", "r1"], ["RAttachShared", "r1"], ["RGetShared", "r1"],
+                  ["WBegin", ""], ["WAttach", ""], ["RGetShared", "r1"], ["RGetShared", "r1"], ["REnd", "r1"], ["WFail", ""]]},
+        # two readers in the middle of their searches
+        {"hist": [["WBegin", ""], ["WAttach", ""], ["WCommit", ""], ["RBegin", "r1"], ["RAttachShared", "r1"], ["RGetShared", "r1"],
+                  ["RBegin", "r2"], ["RAttachShared", "r2"], ["WBegin", ""], ["WAttach", ""], ["RGetShared", "r2"], ["REnd", "r1"],
+                  ["RGetShared", "r2"], ["REnd", "r2"], ["WCommit", ""]]},
+        # a write batch (a delete) arrives while a search is still reading for the cache object it creates; a later
+        # search aims at a deleted point
+        {"hist": [["RBegin", "r1"], ["RAttachNew", "r1"], ["WBegin", "", "delete"], ["WAttach", ""], ["REnd", "r1"], ["WCommit", ""],
+                  ["RBegin", "r2"], ["RAttachShared", "r2"], ["REnd", "r2"]]},
+        # no writer at all: a second search passes a node whose neighbours the first one has read but not yet published
+        # (hook H6b); its answer is compared with a single search on a cold copy of the file (VamanaPair forced/single)
+        {"hist": [["RBegin", "r1"], ["RAttachNew", "r1"], ["RUntil", "r1", "LoadNeighbours+verifSearchStep"], ["RBegin", "r2"],
+                  ["RAttachShared", "r2"], ["REnd", "r2"], ["REnd", "r1"]]},
     ]
     nb = 240 if tier == "quick" else 3000
     behs = vlib.tlc_simulate("ShardCacheSim", "ShardCache.sim.cfg", nb, 200, seed, timeout=1200)
     # (the schedule of C09-a kills the process: it gets chunks of its own)
     chunk = 60
-    behs = [canon[1]] * chunk + ([canon[0], canon[2], canon[3], canon[3]] * 8 + [canon[4]] * 3 + behs)
+    behs = [canon[1]] * chunk + ([canon[0], canon[2], canon[3], canon[3]] * 8 + [canon[4], canon[5], canon[6], canon[7]] * 3 + [canon[8]] * 8 + [canon[9]] * 4 + behs)
     res.coverage["forced_schedule_behaviours"] = len(behs)
     forced = 0
     fresults = []
@@ -143,6 +183,29 @@ def c09(res, tier, seed, replay):
             if "C09-a" in kn and all(x in crashing for x in SIG_C09A):
                 res.known["C09-a"] = kn["C09-a"]["what"]
                 res.add("known_crash_runs", 1)
+                # what was logged before the process died is judged all the same (complete lines only)
+                part = out + ".partial"
+                nl = 0
+                if os.path.exists(out):
+                    with open(out) as f, open(part, "w") as g:
+                        for line in f:
+                            try:
+                                json.loads(line)
+                            except ValueError:
+                                break
+                            if not line.endswith("\n"):
+                                break
+                            g.write(line)
+                            nl += 1
+                if nl:
+                    tv = vlib.tlc_trace("ShardTrace", part, known=kn.keys(), name=name + "-partial")
+                    res.add("trace_events", tv["lines"])
+                    if not tv["accepted"]:
+                        n = tv["matched"] + 1
+                        line = vlib.read_line(part, n) or ""
+                        res.violation(f"forced schedules {name} (the part logged before the known crash): no spec action explains line "
+                                      f"{n}/{tv['lines']}: {summarize_event(line)}",
+                                      files=[part, bf], meta={"cmd": "shard", "args": args, "line": n, "module": "ShardTrace"})
                 continue
             errf = out + ".stderr"
             open(errf, "w").write(se)
